@@ -574,21 +574,26 @@ pub fn check_dml(kind: Kind, sys: &DSys, spec: &DSpec) -> Vec<Fail> {
 // ---------------------------------------------------------------------------------------------
 // dialect-specific constructs: exhaustively enumerated families outside the QModel alphabet
 
-struct Extra {
-    name: String,
+pub struct Extra {
+    pub name: String,
     /// builds the real statement text per (dialect, build-mode?)
-    real: Box<dyn Fn(Dialect, bool) -> String + Sync + Send>,
+    pub real: Box<dyn Fn(Dialect, bool) -> String + Sync + Send>,
     /// reference text; None = the dialect cannot express the request (out of domain)
-    reference: Box<dyn Fn(Dialect, bool) -> Option<String> + Sync + Send>,
+    pub reference: Box<dyn Fn(Dialect, bool) -> Option<String> + Sync + Send>,
 }
 
-fn render_sel(s: &SelectStatement, d: Dialect, build: bool) -> String {
+pub fn render_any<S: QueryStatementWriter>(s: &S, d: Dialect, build: bool) -> String {
     match (d, build) {
         (Dialect::Mysql, false) => s.to_string(MysqlQueryBuilder),
         (Dialect::Mysql, true) => s.build(MysqlQueryBuilder).0,
-        (_, false) => s.to_string(PostgresQueryBuilder),
-        (_, true) => s.build(PostgresQueryBuilder).0,
+        (Dialect::Postgres, false) => s.to_string(PostgresQueryBuilder),
+        (Dialect::Postgres, true) => s.build(PostgresQueryBuilder).0,
+        (Dialect::Sqlite, false) => s.to_string(SqliteQueryBuilder),
+        (Dialect::Sqlite, true) => s.build(SqliteQueryBuilder).0,
     }
+}
+fn render_sel(s: &SelectStatement, d: Dialect, build: bool) -> String {
+    render_any(s, d, build)
 }
 
 fn qd(d: Dialect, n: &str) -> String {
@@ -610,7 +615,7 @@ fn base_select() -> SelectStatement {
     Query::select().column(a("a")).from(a("t1")).to_owned()
 }
 
-fn extras(thorough: bool) -> Vec<Extra> {
+pub fn extras(thorough: bool) -> Vec<Extra> {
     let mut v: Vec<Extra> = vec![];
     // (a) MySQL index hints: every sequence of up to 2 (quick) / 3 (thorough) hints over kind x scope, with and without
     //     the clauses that must follow them
@@ -787,8 +792,8 @@ fn extras(thorough: bool) -> Vec<Extra> {
                 if lim {
                     s.push_str(&format!(" LIMIT {}", p("3")));
                 }
-                if lock {
-                    s.push_str(" FOR UPDATE");
+                if lock && d != Dialect::Sqlite {
+                    s.push_str(" FOR UPDATE"); // SQLite has no row locks: the request is dropped
                 }
                 Some(s)
             }),
@@ -824,6 +829,9 @@ fn extras(thorough: bool) -> Vec<Extra> {
                             let mut s = format!("SELECT {} FROM {}", q("a"), q("t1"));
                             if tail {
                                 s.push_str(&format!(" WHERE {} > {} ORDER BY {} ASC LIMIT {}", q("a"), ph(d, build, 1, "5"), q("a"), ph(d, build, 2, "2")));
+                            }
+                            if d == Dialect::Sqlite {
+                                return Some(s); // no row locks in SQLite
                             }
                             s.push_str(&format!(" FOR {strength}"));
                             if n_tables > 0 {
@@ -870,12 +878,7 @@ fn extras(thorough: bool) -> Vec<Extra> {
                                 w.cycle(Cycle::new_from_expr_set_using(Expr::col(a("k")), a("looped"), a("path")));
                             }
                             let q = w.query(Query::select().column(a("k")).from(a("c0")).and_where(Expr::col(a("k")).lt(99)).to_owned());
-                            match (d, build) {
-                                (Dialect::Mysql, false) => q.to_string(MysqlQueryBuilder),
-                                (Dialect::Mysql, true) => q.build(MysqlQueryBuilder).0,
-                                (_, false) => q.to_string(PostgresQueryBuilder),
-                                (_, true) => q.build(PostgresQueryBuilder).0,
-                            }
+                            render_any(&q, d, build)
                         }),
                         reference: Box::new(move |d, build| {
                             if (search || cycle) && n_ctes != 1 {
@@ -883,6 +886,7 @@ fn extras(thorough: bool) -> Vec<Extra> {
                             }
                             let q = |n: &str| qd(d, n);
                             let pg = d == Dialect::Postgres;
+                            let mat_ok = d != Dialect::Mysql; // SQLite (3.35) has the materialisation hints too
                             let mut n = 0;
                             let mut s = String::from(if search || cycle { "WITH RECURSIVE " } else { "WITH " });
                             for i in 0..n_ctes {
@@ -894,7 +898,7 @@ fn extras(thorough: bool) -> Vec<Extra> {
                                     "{}{} AS {}(SELECT {} FROM {} WHERE {} > {})",
                                     q(&format!("c{i}")),
                                     if cols { format!(" ({})", q("k")) } else { String::new() },
-                                    match (pg, mat) {
+                                    match (mat_ok, mat) {
                                         (true, Some(true)) => "MATERIALIZED ",
                                         (true, Some(false)) => "NOT MATERIALIZED ",
                                         _ => "",
@@ -949,7 +953,7 @@ fn extras(thorough: bool) -> Vec<Extra> {
                 render_sel(&s, d, build)
             }),
             reference: Box::new(move |d, build| {
-                if d == Dialect::Mysql {
+                if d != Dialect::Postgres {
                     return None;
                 }
                 let q = |n: &str| qd(d, n);
@@ -978,7 +982,7 @@ fn extras(thorough: bool) -> Vec<Extra> {
                 render_sel(&s, d, build)
             }),
             reference: Box::new(move |d, build| {
-                if d == Dialect::Mysql {
+                if d != Dialect::Postgres {
                     return None;
                 }
                 let q = |n: &str| qd(d, n);
@@ -999,12 +1003,7 @@ fn extras(thorough: bool) -> Vec<Extra> {
                     "where" => render_sel(base_select().and_where(Expr::col(a("s")).eq(e())), d, build),
                     _ => {
                         let s = Query::insert().into_table(a("t1")).columns([a("s")]).values_panic([e().into()]).to_owned();
-                        match (d, build) {
-                            (Dialect::Mysql, false) => s.to_string(MysqlQueryBuilder),
-                            (Dialect::Mysql, true) => s.build(MysqlQueryBuilder).0,
-                            (_, false) => s.to_string(PostgresQueryBuilder),
-                            (_, true) => s.build(PostgresQueryBuilder).0,
-                        }
+                        render_any(&s, d, build)
                     }
                 }
             }),
@@ -1054,6 +1053,9 @@ fn extras(thorough: bool) -> Vec<Extra> {
                     if kw == "CROSS" && d == Dialect::Postgres && form != "plain-no-on" {
                         return None; // PostgreSQL's CROSS JOIN takes no ON
                     }
+                    if form == "lateral" && d == Dialect::Sqlite {
+                        return None; // no LATERAL in SQLite
+                    }
                     Some(format!("SELECT {} FROM {} {kw} JOIN {target}{cond} WHERE {} < {}", q("a"), q("t1"), q("a"), ph(d, build, nb, "7")))
                 }),
             });
@@ -1096,12 +1098,7 @@ fn extras(thorough: bool) -> Vec<Extra> {
                         }
                         macro_rules! render {
                             ($s:expr) => {
-                                match (d, build) {
-                                    (Dialect::Mysql, false) => $s.to_string(MysqlQueryBuilder),
-                                    (Dialect::Mysql, true) => $s.build(MysqlQueryBuilder).0,
-                                    (_, false) => $s.to_string(PostgresQueryBuilder),
-                                    (_, true) => $s.build(PostgresQueryBuilder).0,
-                                }
+                                render_any(&$s, d, build)
                             };
                         }
                         match ctx {
@@ -1176,6 +1173,16 @@ fn extras(thorough: bool) -> Vec<Extra> {
     v
 }
 
+/// one construct = one key: the family name (for the parameterised families the first word)
+pub fn family_of(name: &str) -> String {
+    let first = name.split(' ').next().unwrap_or("").to_string();
+    if ["index-hints", "named-window", "with", "lock", "tablesample", "distinct-on", "order-by"].contains(&first.as_str()) {
+        first
+    } else {
+        name.split(' ').take(2).collect::<Vec<_>>().join(" ")
+    }
+}
+
 fn run_extras(rep: &Arc<Report>) -> (u64, u64, u64) {
     let ex = extras(rep.thorough());
     let mut distinct: std::collections::HashSet<u128> = Default::default();
@@ -1199,9 +1206,7 @@ fn run_extras(rep: &Arc<Report>) -> (u64, u64, u64) {
                 };
                 if let Some(f) = fail {
                     rep.raw_failures.inc();
-                    // one construct = one key: the family name up to the first blank-separated parameter list
-                    let family: String = e.name.split(' ').take(2).collect::<Vec<_>>().join(" ");
-                    let family = if e.name.starts_with("index-hints") || e.name.starts_with("named-window") || e.name.starts_with("with ") || e.name.starts_with("lock ") || e.name.starts_with("tablesample") || e.name.starts_with("distinct-on") || e.name.starts_with("order-by") { e.name.split(' ').next().unwrap().to_string() } else { family };
+                    let family = family_of(&e.name);
                     rep.violation(Violation { key: format!("construct|{}|{}|{}", d.name(), f.sig, family), what: format!("{}: {}", e.name, f.detail), case: json!({"kind": "construct", "name": e.name, "dialect": d.name(), "build": build}) });
                 }
             }
